@@ -357,6 +357,7 @@ impl Join {
                     columns,
                     string_pool.long_string_refs(),
                 );
+                validate_join_condition(&table, &condition)?;
                 let mut rows = Vec::<Vec<ValueRef>>::new();
                 for value_refs1 in rows1.iter() {
                     for value_refs2 in rows2.iter() {
@@ -397,6 +398,7 @@ impl Join {
                     columns,
                     string_pool.long_string_refs(),
                 );
+                validate_join_condition(&table, &condition)?;
                 let mut rows = Vec::<Vec<ValueRef>>::new();
                 for value_refs1 in rows1.iter() {
                     let mut found_any = false;
@@ -434,6 +436,21 @@ impl Join {
             }
         }
     }
+}
+
+/// Checks that every column named in a join condition is a column of the
+/// joined table, so that evaluating the condition on its rows cannot panic.
+fn validate_join_condition(table: &Table, condition: &Expr) -> io::Result<()> {
+    for column_name in condition.column_names().into_iter() {
+        if !table.has_column(column_name) {
+            invalid_input!(
+                "Join condition refers to column {:?}, which neither side \
+                 of the join has",
+                column_name
+            );
+        }
+    }
+    Ok(())
 }
 
 impl fmt::Display for Join {
